@@ -795,13 +795,18 @@ func (w *vc08World) genDelta(r *vRand) *vc08Delta {
 	return d
 }
 
-func vc08RunCase(t *testing.T, r *vRand, caseNo int, nops int, out *vOut, stats map[string]int) {
-	w := &vc08World{t: t, stats: stats}
+type vc08Gen struct {
+	addr uint64
+	a    vc08Acct
+}
+
+func vc08NewWorld(t *testing.T, stats map[string]int, lookback uint64, disableCache bool, genAccts []vc08Gen) (w *vc08World, gen []interface{}) {
+	w = &vc08World{t: t, stats: stats}
 	w.log = logging.TestingLog(t)
 	w.log.SetLevel(logging.Fatal) // the window lookups log errors by design
 	w.conf = config.GetDefaultLocal()
-	w.conf.MaxAcctLookback = uint64(r.Intn(5))
-	w.conf.DisableLedgerLRUCache = r.Intn(4) == 0
+	w.conf.MaxAcctLookback = lookback
+	w.conf.DisableLedgerLRUCache = disableCache
 	w.addrs = []uint64{1, 2, 3, 4, 9}
 	w.cidxs = []uint64{10, 11, 12, 13}
 	w.keys = []string{"k\x00a", "k\x00b", "q", "zz"}
@@ -812,30 +817,47 @@ func vc08RunCase(t *testing.T, r *vRand, caseNo int, nops int, out *vOut, stats 
 	w.usedCi = map[uint64]bool{}
 
 	genesis := map[basics.Address]basics.AccountData{}
-	gen := vL()
-	for _, a := range w.addrs[:2+r.Intn(2)] {
-		x := vc08Acct{algos: uint64(1 + r.Intn(1000))}
-		w.gAcct[a] = x
-		genesis[vc08Addr(a)] = basics.AccountData{MicroAlgos: basics.MicroAlgos{Raw: x.algos}}
-		gen = append(gen, vL(a, x.algos, x.status, x.extra))
+	gen = vL()
+	for _, g := range genAccts {
+		w.gAcct[g.addr] = g.a
+		genesis[vc08Addr(g.addr)] = basics.AccountData{MicroAlgos: basics.MicroAlgos{Raw: g.a.algos},
+			Status: basics.Status(g.a.status), AuthAddr: vc08Addr(g.a.extra)}
+		gen = append(gen, vL(g.addr, g.a.algos, g.a.status, g.a.extra))
 	}
 	w.ml = makeMockLedgerForTrackerWithLogger(t, false, 1, protocol.ConsensusCurrentVersion,
 		[]map[basics.Address]basics.AccountData{genesis}, w.log)
-	defer func() {
-		w.gate.step = false
-		w.ml.Close()
-	}()
 	w.totals = w.ml.deltas[0].Totals
 	_, err := trackerDBInitialize(w.ml, false, ".")
 	require.NoError(t, err)
 	w.gate = &vc08Gate{g1: make(chan struct{}), g1r: make(chan struct{}), g2: make(chan struct{}), g2r: make(chan struct{})}
 	w.openTrackers()
 	w.gate.step = true
+	return
+}
 
+func (w *vc08World) close() {
+	w.gate.step = false
+	w.ml.Close()
+}
+
+func (w *vc08World) emit(out *vOut, gen []interface{}) {
 	na, nr, nk := 0, 0, 0
 	if !w.conf.DisableLedgerLRUCache {
 		na, nr, nk = baseAccountsPendingAccountsBufferSize, baseResourcesPendingAccountsBufferSize, baseKVPendingBufferSize
 	}
+	out.Case(vSym("c08"), vL(w.conf.MaxAcctLookback, !w.conf.DisableLedgerLRUCache, na, nr, nk), gen, w.ops)
+}
+
+func vc08RunCase(t *testing.T, r *vRand, caseNo int, nops int, out *vOut, stats map[string]int) {
+	var genAccts []vc08Gen
+	lookback := uint64(r.Intn(5))
+	disable := r.Intn(4) == 0
+	for _, a := range []uint64{1, 2, 3}[:2+r.Intn(2)] {
+		genAccts = append(genAccts, vc08Gen{a, vc08Acct{algos: uint64(1 + r.Intn(1000))}})
+	}
+	w, gen := vc08NewWorld(t, stats, lookback, disable, genAccts)
+	defer w.close()
+
 	dense := caseNo%3 == 0
 	w.dump()
 	w.sweep(r, dense)
@@ -909,7 +931,7 @@ func vc08RunCase(t *testing.T, r *vRand, caseNo int, nops int, out *vOut, stats 
 		w.dump()
 		w.sweep(r, false)
 	}
-	out.Case(vSym("c08"), vL(w.conf.MaxAcctLookback, !w.conf.DisableLedgerLRUCache, na, nr, nk), gen, w.ops)
+	w.emit(out, gen)
 	stats["cases"]++
 	stats["ops"] += len(w.ops)
 	stats["blocks"] += w.nblk
@@ -947,4 +969,64 @@ func TestVerifC08(t *testing.T) {
 		st[k] = stats[k]
 	}
 	vStats(st)
+}
+
+// The two ill-formed histories of C08_kv_olddata_needed / C08_res_keep_needed on the real code: the
+// answers differ before and after the flush exactly as in the model (the checker does not apply the
+// property to histories the evaluator cannot produce, but it still compares model and code).
+func TestVerifC08NonWF(t *testing.T) {
+	if os.Getenv("VERIF_OUT") == "" {
+		t.Skip("VERIF_OUT not set")
+	}
+	out := vOpen("cases_nonwf.txt")
+	defer out.Close()
+	stats := map[string]int{}
+	r := vNewRand(0xc08f)
+	commitAll := func(w *vc08World, rnd uint64) {
+		w.opSchedule(rnd)
+		w.dump()
+		w.sweep(r, true)
+		w.opCommit()
+		w.dump()
+		w.sweep(r, true)
+		w.opPost(nil)
+		w.dump()
+		w.sweep(r, true)
+	}
+	t.Run("kv_olddata", func(t *testing.T) {
+		w, gen := vc08NewWorld(t, stats, 0, false, []vc08Gen{{1, vc08Acct{algos: 100}}})
+		defer w.close()
+		w.dump()
+		d := &vc08Delta{kv: []vc08Kv{{"q", []byte{1}, []byte{1}}}} // OldData claims the key already held 01
+		w.opBlock(d)
+		w.dump()
+		before := w.qKv(1, "q")
+		w.sweep(r, true)
+		commitAll(w, 1)
+		after := w.qKv(1, "q")
+		require.Equal(t, vT(vSym("ok"), []byte{1}), vT(before.([]interface{})...))
+		require.Equal(t, vT(vSym("ok"), vSym("nil")), vT(after.([]interface{})...))
+		w.emit(out, gen)
+	})
+	t.Run("res_keep", func(t *testing.T) {
+		w, gen := vc08NewWorld(t, stats, 0, false, []vc08Gen{{1, vc08Acct{algos: 100}}})
+		defer w.close()
+		w.dump()
+		d1 := &vc08Delta{res: []vc08Res{{1, 10, 7, 3}}}
+		d1.accts = append(d1.accts, struct {
+			addr uint64
+			a    vc08Acct
+		}{1, vc08Acct{algos: 5}})
+		w.opBlock(d1)
+		w.dump()
+		w.opBlock(&vc08Delta{res: []vc08Res{{1, 10, 7, -1}}}) // holding: nil and not deleted although present
+		w.dump()
+		before := w.qRes(2, 1, 10)
+		w.sweep(r, true)
+		commitAll(w, 2)
+		after := w.qRes(2, 1, 10)
+		require.Equal(t, vT(vSym("ok"), -1+8, -1), vT(before.([]interface{})...))
+		require.Equal(t, vT(vSym("ok"), 7, 3), vT(after.([]interface{})...))
+		w.emit(out, gen)
+	})
 }
